@@ -20,7 +20,14 @@ package server
 //                observed behaviour, hidden activeListener fields, number of
 //                updates so far capped at 2)
 //   operations = AddOrUpdateListener(cfg), cfg from the alphabet
-//                TLS x inspector x "misc" (the other fields the update branch copies)
+//                TLS x inspector x "misc" (the other fields the update branch copies);
+//                plus two FILE events: one TLS form ("A+mtls@files") names its
+//                ca_cert, cert_chain and private_key by file path, and the events
+//                "ca-file=A" / "ca-file=B" rewrite the CA file. For a path the
+//                configured CA is the content the file has when the listener is
+//                added / updated (that is when the manager is rebuilt and the
+//                file is read); rewriting the file changes nothing until the
+//                next update.
 //   oracle     = (1) reference rule: plaintext is served iff TLS is off or the
 //                last update has inspector on; a TLS client is served iff TLS is
 //                on, sees the certificate of the LAST update and is admitted
@@ -44,7 +51,10 @@ package server
 // listener itself is never started and binds nothing. Every I/O has a 30 s
 // deadline whose expiry is a harness error, never a violation.
 //
-// The harness creates no files and removes none.
+// Files: only below t.TempDir() (created at run time, removed by the testing
+// package); every history runs in its own fresh sub-directory, so a process-wide
+// memo keyed by a path cannot leak from one history into another and a history
+// replays alone exactly as it ran in the search.
 
 import (
 	"context"
@@ -62,6 +72,7 @@ import (
 	"math/big"
 	"net"
 	"os"
+	"path/filepath"
 	"reflect"
 	"sort"
 	"strings"
@@ -241,11 +252,60 @@ func (c13luCMFilter) OnCreated(cccb types.ClusterConfigFactoryCb, chcb types.Clu
 type c13luCfg struct {
 	TLS       string `json:"tls"`
 	Inspector bool   `json:"inspector"`
-	Misc      int    `json:"misc"` // 0/1: two settings of the non-TLS fields the update branch copies
+	Misc      int    `json:"misc"`            // 0/1: two settings of the non-TLS fields the update branch copies
+	Event     string `json:"event,omitempty"` // "" = AddOrUpdateListener with the fields above; "ca-file=A" / "ca-file=B" = rewrite the CA file (no listener operation)
 }
 
 func (c c13luCfg) String() string {
+	if c.Event != "" {
+		return "{" + c.Event + "}"
+	}
 	return fmt.Sprintf("{tls=%s inspector=%v misc=%d}", c.TLS, c.Inspector, c.Misc)
+}
+
+const (
+	c13luFilesForm = "A+mtls@files" // certificate A, verify_client + require_client_cert; ca_cert, cert_chain, private_key are file paths
+	c13luEvCAA     = "ca-file=A"
+	c13luEvCAB     = "ca-file=B"
+)
+
+// the root below which the directories of the histories are made (t.TempDir())
+var c13luRoot string
+
+func c13luWrite(path, content string) error {
+	tmp := path + ".tmp"
+	if err := os.WriteFile(tmp, []byte(content), 0600); err != nil {
+		return err
+	}
+	return os.Rename(tmp, path)
+}
+
+func c13luWriteCA(dir, ca string) error {
+	p := c13luSetup()
+	pem := p.caA.CertPEM
+	if ca == "B" {
+		pem = p.caB.CertPEM
+	}
+	return c13luWrite(filepath.Join(dir, "ca.pem"), pem)
+}
+
+// c13luNewDir makes the directory of one history: CA file = CA A, certificate and key files = certificate A
+func c13luNewDir() (string, error) {
+	p := c13luSetup()
+	if c13luRoot == "" {
+		return "", errors.New("no root directory")
+	}
+	dir, err := os.MkdirTemp(c13luRoot, "history")
+	if err != nil {
+		return "", err
+	}
+	if err := c13luWriteCA(dir, "A"); err != nil {
+		return "", err
+	}
+	if err := c13luWrite(filepath.Join(dir, "cert.pem"), p.srvA.CertPEM); err != nil {
+		return "", err
+	}
+	return dir, c13luWrite(filepath.Join(dir, "key.pem"), p.srvA.KeyPEM)
 }
 
 type c13luCase struct {
@@ -254,9 +314,9 @@ type c13luCase struct {
 
 func c13luTLSAlphabet() []string {
 	if vreport.Thorough() {
-		return []string{"off", "A", "B", "A+mtls", "B+mtls", "A+verify", "A,B", "B,A", "broken"}
+		return []string{"off", "A", "B", "A+mtls", c13luFilesForm, "B+mtls", "A+verify", "A,B", "B,A", "broken"}
 	}
-	return []string{"off", "A", "B", "A+mtls"}
+	return []string{"off", "A", "B", "A+mtls", c13luFilesForm}
 }
 
 func c13luAlphabet() []c13luCfg {
@@ -268,12 +328,14 @@ func c13luAlphabet() []c13luCfg {
 			}
 		}
 	}
+	out = append(out, c13luCfg{Event: c13luEvCAA}, c13luCfg{Event: c13luEvCAB})
 	return out
 }
 
 type c13luCtxSpec struct {
 	cert            string // "A" / "B" / "broken"
 	verify, require bool
+	files           bool // ca_cert, cert_chain and private_key are paths into the history's directory
 }
 
 // the contexts a TLS setting stands for (nil = TLS off), in configured order
@@ -285,6 +347,8 @@ func c13luContexts(tlsName string) ([]c13luCtxSpec, error) {
 		return []c13luCtxSpec{{cert: tlsName}}, nil
 	case "A+mtls":
 		return []c13luCtxSpec{{cert: "A", verify: true, require: true}}, nil
+	case c13luFilesForm:
+		return []c13luCtxSpec{{cert: "A", verify: true, require: true, files: true}}, nil
 	case "B+mtls":
 		return []c13luCtxSpec{{cert: "B", verify: true, require: true}}, nil
 	case "A+verify":
@@ -299,8 +363,11 @@ func c13luContexts(tlsName string) ([]c13luCtxSpec, error) {
 	return nil, fmt.Errorf("unknown tls setting %q", tlsName)
 }
 
-func c13luTLSJSON(p *c13luPKI, s c13luCtxSpec) map[string]interface{} {
+func c13luTLSJSON(p *c13luPKI, s c13luCtxSpec, dir string) map[string]interface{} {
 	m := map[string]interface{}{"status": true, "ca_cert": p.caA.CertPEM}
+	if s.files {
+		m["ca_cert"] = filepath.Join(dir, "ca.pem")
+	}
 	switch s.cert {
 	case "A":
 		m["cert_chain"], m["private_key"] = p.srvA.CertPEM, p.srvA.KeyPEM
@@ -308,6 +375,9 @@ func c13luTLSJSON(p *c13luPKI, s c13luCtxSpec) map[string]interface{} {
 		m["cert_chain"], m["private_key"] = p.srvB.CertPEM, p.srvB.KeyPEM
 	default:
 		m["cert_chain"], m["private_key"] = "-----BEGIN CERTIFICATE-----\nbm90IGEgY2VydGlmaWNhdGU=\n-----END CERTIFICATE-----\n", p.srvA.KeyPEM
+	}
+	if s.files {
+		m["cert_chain"], m["private_key"] = filepath.Join(dir, "cert.pem"), filepath.Join(dir, "key.pem")
 	}
 	if s.verify {
 		m["verify_client"] = true
@@ -322,8 +392,11 @@ func c13luTLSJSON(p *c13luPKI, s c13luCtxSpec) map[string]interface{} {
 // listener, unmarshalled into a v2.Listener (tls_context / tls_context_set are
 // turned into TLSContexts by FilterChain.UnmarshalJSON). Every call returns a
 // fresh object: the update branch stores slices of the configuration it is given.
-func c13luBuild(c c13luCfg) (*v2.Listener, error) {
+func c13luBuild(c c13luCfg, dir string) (*v2.Listener, error) {
 	p := c13luSetup()
+	if c.Event != "" {
+		return nil, fmt.Errorf("%v is not a listener configuration", c)
+	}
 	ctxs, err := c13luContexts(c.TLS)
 	if err != nil {
 		return nil, err
@@ -335,11 +408,11 @@ func c13luBuild(c c13luCfg) (*v2.Listener, error) {
 	case len(ctxs) == 0:
 		chain["tls_context"] = map[string]interface{}{"status": false}
 	case len(ctxs) == 1:
-		chain["tls_context"] = c13luTLSJSON(p, ctxs[0])
+		chain["tls_context"] = c13luTLSJSON(p, ctxs[0], dir)
 	default:
 		var set []interface{}
 		for _, s := range ctxs {
-			set = append(set, c13luTLSJSON(p, s))
+			set = append(set, c13luTLSJSON(p, s, dir))
 		}
 		chain["tls_context_set"] = set
 	}
@@ -605,8 +678,10 @@ func c13luObserve(al *activeListener) (out []string, detail []string, herr strin
 	return out, detail, ""
 }
 
-// c13luWant is the statement's rule for one probe under one configuration.
-func c13luWant(c c13luCfg, pr c13luProbe) string {
+// c13luWant is the statement's rule for one probe under one configuration; ca is
+// the content ("A"/"B") the CA file had when that configuration was applied
+// (only read for the form whose ca_cert is a path).
+func c13luWant(c c13luCfg, pr c13luProbe, ca string) string {
 	ctxs, _ := c13luContexts(c.TLS)
 	if len(ctxs) == 0 {
 		// no TLS on this listener: every first byte is payload
@@ -645,6 +720,9 @@ func c13luWant(c c13luCfg, pr c13luProbe) string {
 	}
 	admit := true
 	switch {
+	case sel.verify && sel.require && sel.files:
+		// only a certificate chaining to the CONFIGURED CA = what the file held at the last update
+		admit = (pr.Peer == "right-ca" && ca == "A") || (pr.Peer == "other-ca" && ca == "B")
 	case sel.verify && sel.require:
 		admit = pr.Peer == "right-ca"
 	case sel.verify:
@@ -661,10 +739,14 @@ func c13luWant(c c13luCfg, pr c13luProbe) string {
 
 type c13luRun struct {
 	al       *activeListener
-	errs     []string // per operation: "" or the error
-	lastOK   int      // index of the last operation that succeeded, -1 if none
+	errs     []string // per history element: "" or the error (file events: always "")
+	lastOK   int      // index of the last listener operation that succeeded, -1 if none
+	lastCfg  int      // index of the last listener operation, -1 if none
 	updates  int      // successful or failed calls that hit the update branch
 	panicked string
+	dir      string   // the directory of this history
+	fileCA   string   // content of the CA file now
+	caAt     []string // per history element: content of the CA file at that moment
 }
 
 func c13luNewHandler() *connHandler {
@@ -672,10 +754,33 @@ func c13luNewHandler() *connHandler {
 }
 
 func c13luApply(h []c13luCfg) (*c13luRun, error) {
-	r := &c13luRun{lastOK: -1}
+	r := &c13luRun{lastOK: -1, lastCfg: -1, fileCA: "A"}
+	dir, err := c13luNewDir()
+	if err != nil {
+		return nil, err
+	}
+	r.dir = dir
 	ch := c13luNewHandler()
 	for i, c := range h {
-		lc, err := c13luBuild(c)
+		if c.Event != "" {
+			switch c.Event {
+			case c13luEvCAA:
+				r.fileCA = "A"
+			case c13luEvCAB:
+				r.fileCA = "B"
+			default:
+				return nil, fmt.Errorf("unknown event %q", c.Event)
+			}
+			if err := c13luWriteCA(dir, r.fileCA); err != nil {
+				return nil, err
+			}
+			r.errs = append(r.errs, "")
+			r.caAt = append(r.caAt, r.fileCA)
+			continue
+		}
+		r.caAt = append(r.caAt, r.fileCA)
+		r.lastCfg = i
+		lc, err := c13luBuild(c, dir)
 		if err != nil {
 			return nil, err
 		}
@@ -718,9 +823,18 @@ func c13luTLSSig(p *c13luPKI, ts []v2.TLSConfig) string {
 			name = "other"
 			if t.CertChain == "" {
 				name = "-"
+			} else if !strings.Contains(t.CertChain, "-----BEGIN") {
+				// a path: the directory differs per history, the file name does not
+				name = "file:" + filepath.Base(t.CertChain) + "+" + filepath.Base(t.PrivateKey)
 			}
 		}
-		s = append(s, fmt.Sprintf("%v/%s/v%v/r%v", t.Status, name, t.VerifyClient, t.RequireClientCert))
+		ca := "ca=inline"
+		if t.CACert == "" {
+			ca = "ca=-"
+		} else if !strings.Contains(t.CACert, "-----BEGIN") {
+			ca = "ca=file:" + filepath.Base(t.CACert)
+		}
+		s = append(s, fmt.Sprintf("%v/%s/%s/v%v/r%v", t.Status, name, ca, t.VerifyClient, t.RequireClientCert))
 	}
 	return "[" + strings.Join(s, " ") + "]"
 }
@@ -792,13 +906,24 @@ func c13luStoredDiffs(al *activeListener, want *v2.Listener) []string {
 }
 
 // behaviour of a FRESH handler on which only c was added, once per configuration
-var c13luFreshCache = map[c13luCfg][]string{}
+type c13luFreshKey struct {
+	cfg c13luCfg
+	ca  string
+}
 
-func c13luFresh(c c13luCfg) ([]string, string) {
-	if o, ok := c13luFreshCache[c]; ok {
+var c13luFreshCache = map[c13luFreshKey][]string{}
+
+// ca = content of the CA file when the fresh listener is added (only matters
+// for the form whose ca_cert is a path)
+func c13luFresh(c c13luCfg, ca string) ([]string, string) {
+	k := c13luFreshKey{c, ""}
+	if c.TLS == c13luFilesForm {
+		k.ca = ca
+	}
+	if o, ok := c13luFreshCache[k]; ok {
 		return o, ""
 	}
-	r, err := c13luApply([]c13luCfg{c})
+	r, err := c13luApply([]c13luCfg{{Event: "ca-file=" + ca}, c})
 	if err != nil {
 		return nil, err.Error()
 	}
@@ -812,7 +937,7 @@ func c13luFresh(c c13luCfg) ([]string, string) {
 	if herr != "" {
 		return nil, herr
 	}
-	c13luFreshCache[c] = o
+	c13luFreshCache[k] = o
 	return o, ""
 }
 
